@@ -59,6 +59,10 @@ void harness(void)
     d->stage = (ZSTD_dStage)stage; d->expected = expected; d->bType = (blockType_e)bType; d->rleSize = rleSize;
     d->fParams.blockSizeMax = blockSizeMax; d->fParams.frameContentSize = fcs; d->fParams.checksumFlag = checksumFlag;
     d->validateChecksum = validate; d->decodedSize = decoded; d->format = (ZSTD_format_e)format; d->headerSize = headerSize;
+#ifdef ONLY_HDR   /* proof runs of unit c09_decompress_continue_hdrsizes: format and total header size are constants (ONLY_HDR = format*32 + headerSize) */
+    ASSUME(format == ONLY_HDR / 32 && headerSize == ONLY_HDR % 32 && n == (ONLY_HDR % 32) - ((ONLY_HDR / 32) == ZSTD_f_zstd1 ? 5u : 1u));
+    d->format = (ZSTD_format_e)(ONLY_HDR / 32); d->headerSize = ONLY_HDR % 32;
+#endif
     d->forceIgnoreChecksum = forceIgnore ? ZSTD_d_ignoreChecksum : ZSTD_d_validateChecksum;
     d->ddictSet = NULL; d->isFrameDecompression = 1;
     /* output continues where the previous call stopped (the other case is unit c02_check_continuity) */
@@ -73,12 +77,18 @@ void harness(void)
     if (stage == ZSTDds_decodeSkippableHeader) ASSUME(expected >= 1 && expected <= ZSTD_SKIPPABLEHEADERSIZE - ZSTD_FRAMEIDSIZE - 0 && format == ZSTD_f_zstd1 && expected == 3);
 
     {   ZSTD_dStage const s0 = d->stage; size_t const e0 = d->expected;
+#ifdef ONLY_HDR
+        r = ZSTD_decompressContinue(d, dst, cap, src, (ONLY_HDR % 32) - ((ONLY_HDR / 32) == ZSTD_f_zstd1 ? 5u : 1u));
+#else
         r = ZSTD_decompressContinue(d, dst, cap, src, n);
+#endif
         /* the size the decoder asked for */
         {   size_t const want = ((s0 == ZSTDds_decompressBlock || s0 == ZSTDds_decompressLastBlock) && bType == bt_raw)
                               ? (n < 1 ? 1 : (n > e0 ? e0 : n)) : e0;
             if (n != want) {
+#ifndef ONLY_HDR
                 REACH("continue: wrong size");
+#endif
                 CLAIM(ZSTD_isError(r), "C09 continue: input of the wrong size is refused");
                 CLAIM(d->stage == s0 && d->expected == e0 && d->decodedSize == decoded, "C09 continue: a refused call changes nothing");
                 return;
@@ -87,6 +97,7 @@ void harness(void)
         if (ZSTD_isError(r)) { REACH("continue: error"); return; }
         CLAIM(r <= cap, "C06 continue: bytes produced never exceed the destination capacity");
         CLAIM(d->expected <= (d->stage == ZSTDds_skipFrame ? 0xFFFFFFFFu : (ZSTD_BLOCKSIZE_MAX > ZSTD_FRAMEHEADERSIZE_MAX ? ZSTD_BLOCKSIZE_MAX : ZSTD_FRAMEHEADERSIZE_MAX)), "C10 continue: the size hint is bounded by the block size limit");
+#ifndef ONLY_HDR        /* the other stages: not part of the per-header-size runs */
         if (s0 == ZSTDds_decodeBlockHeader) {
             REACH("continue: block header");
             if (d->stage == ZSTDds_decompressBlock || d->stage == ZSTDds_decompressLastBlock)
@@ -117,6 +128,7 @@ void harness(void)
             CLAIM(!validate || MEM_readLE32(src) == (U32)zstd_verif_ghost.xxh_last_digest, "C09 continue: the frame checksum is accepted only if it equals the computed one (unless verification is disabled)");
             CLAIM(d->stage == ZSTDds_getFrameHeaderSize && d->expected == 0, "C10 continue: after the checksum the frame is complete");
         }
+#endif /* !ONLY_HDR */
 #if ONLY_STAGE == 1     /* proof run of unit c09_decompress_continue_hdr */
         if (s0 == ZSTDds_decodeFrameHeader) {
             REACH("continue: frame header decoded");
